@@ -46,8 +46,30 @@ pub fn gen_points<const K: usize>(r: &mut Rng, t: &AffTree<K>, count: usize) -> 
     pts
 }
 
+/// the same tree with its root NOT at arena index 0: Tree::add_root called twice leaves the superseded node behind
+/// (unreachable, documented), so the real root gets the next index
+fn reroot<const K: usize>(r: &mut Rng, t: &AffTree<K>) -> AffTree<K> {
+    use affinitree::pwl::node::AffContent;
+    use affinitree::tree::graph::Tree;
+    let n = t.in_dim();
+    let mut tr: Tree<AffContent, K> = Tree::new();
+    tr.add_root(AffContent::new(gen_dec(r, 1, n, 4)));
+    let root = tr.add_root(t.tree.get_root().value.clone());
+    let mut stack = vec![(t.tree.get_root_idx(), root)];
+    while let Some((src, dst)) = stack.pop() {
+        let kids: Vec<(usize, usize)> = t.tree.children(src).map(|e| (e.label, e.target_idx)).collect();
+        for (label, c) in kids {
+            let v = t.tree.node_value(c).unwrap().clone();
+            let d = tr.add_child_node(dst, label, v).unwrap();
+            stack.push((c, d));
+        }
+    }
+    AffTree::from_tree(tr, n)
+}
+
 fn one_case<const K: usize>(r: &mut Rng, id: usize, out: &mut String) {
-    let n = 1 + r.below(3);
+    // input dimension 0 (a tree over the one-point space: constants only) once in a while
+    let n = if r.chance(1, 12) { 0 } else { 1 + r.below(3) };
     let m = 1 + r.below(3);
     let k = 1 + r.below(3);
     let maxd = if K == 2 { 3 } else { 2 };
@@ -97,6 +119,9 @@ fn one_case<const K: usize>(r: &mut Rng, id: usize, out: &mut String) {
                 widen(r, &mut a);
                 g.update_node(i, a).unwrap();
             }
+        }
+        if r.chance(1, 8) {
+            g = reroot(r, &g);
         }
         let g_before = sx_tree(&g);
         let mut h = f.clone();
